@@ -322,7 +322,7 @@ impl<'a> PrettyPrinter<'a> {
                 flow.push_doc(self.arena.text("#"), true, false);
                 peek_hash = true;
             } else {
-                let ctx = ctx.with_mode_if(Mode::Code, at_hash);
+                let ctx = (ctx.with_mode_if(Mode::Code, at_hash)).with_after_hash(at_hash);
                 let item = producer(ctx, child);
                 if let Some(repr) = item.0 {
                     flow.push_doc(repr.doc, repr.space_before, repr.space_after);
